@@ -114,7 +114,7 @@ type ChunkReader struct {
 	FailAfter   int
 	EOFAtPass   int // in this pass (1 or 2) report EOF EOFShort bytes early
 	EOFShort    int
-	FlipAtPass  int // in this pass, flip the byte at offset FlipOff
+	FlipAtPass  int  // in this pass, flip the byte at offset FlipOff
 	FlipOnward  bool // ... and in every later pass too (the source has changed for good)
 	FlipOff     int
 	ExtraPass   int // in this pass, deliver ExtraBytes more bytes after the data
@@ -163,6 +163,11 @@ func (r *ChunkReader) Len() int {
 	}
 	return len(r.Data) - r.pos
 }
+
+// Size reports the length of the underlying data, as bytes.Reader, strings.Reader and
+// io.SectionReader do: code that trusts such a method instead of what it read is exposed by
+// the same-length changes of the source (C12-w11-m1).
+func (r *ChunkReader) Size() int64 { return int64(len(r.Data)) }
 
 func (r *ChunkReader) Read(p []byte) (int, error) {
 	r.Calls++
